@@ -279,6 +279,9 @@ func (c *Cluster) respond(sc *Conn, callID uint32, rep *Reply) {
 	if c.LatencyTape {
 		lat = []time.Duration{0, 0, time.Millisecond, 2 * time.Millisecond, 5 * time.Millisecond, 0, 3 * time.Millisecond, 0}[c.tapeLocked()%8]
 	}
+	if lat < c.MinLatency {
+		lat = c.MinLatency
+	}
 	c.mu.Unlock()
 	if lat == 0 && rep.HoldKey == "" {
 		sc.wmu.Lock()
